@@ -168,6 +168,23 @@ func c06Body(k int, tomb bool) mc.Body {
 			if v := verify("node points on "+n, "node-points", pts, exp); v != nil {
 				return *v
 			}
+			// a batch with several samples of one identity (a sensor history sent in one go), both orders
+			for _, rev := range []bool{false, true} {
+				t1, t2, t3 := tick(), tick(), tick()
+				if rev {
+					t1, t3 = t3, t1
+				}
+				hist := data.Points{{Type: "s", Value: 1, Time: t1}, {Type: "s", Value: 2, Time: t2}, {Type: "d", Text: "x", Time: tick()}, {Type: "s", Key: "0", Value: 3, Time: t3}}
+				seen = nil
+				err := client.SendNodePoints(inst.Nc, n, append(data.Points{}, hist...), true)
+				x.Step(1)
+				if err != nil {
+					return mc.Outcome{Violation: fmt.Sprintf("node points on %s (several samples of one identity) refused: %v", n, err), Key: "legal-write-refused"}
+				}
+				if v := verify("node points on "+n+" (several samples of one identity in one batch)", "node-points", hist, exp); v != nil {
+					return *v
+				}
+			}
 		}
 		// edge points: on every existing edge (role, tombstone same value, tombstone flip) and on the root's own edge
 		type ew struct {
@@ -187,6 +204,7 @@ func c06Body(k int, tomb bool) mc.Body {
 			}
 			writes = append(writes,
 				ew{e.c, id(e.p), data.Points{{Type: "role", Value: 2, Text: "r", Time: tick()}, {Type: "x", Key: "1", Time: tick()}}, fmt.Sprintf("edge points on %s>%s", e.p, e.c)},
+				ew{e.c, id(e.p), data.Points{{Type: "role", Value: 3, Time: tick()}, {Type: "role", Value: 4, Time: tick()}, {Type: "y", Time: tick()}, {Type: "role", Key: "0", Value: 5, Time: tick()}}, fmt.Sprintf("edge points on %s>%s (several samples of one identity in one batch)", e.p, e.c)},
 				ew{e.c, id(e.p), data.Points{{Type: data.PointTypeTombstone, Value: cur, Time: tick()}}, fmt.Sprintf("tombstone=%v re-sent on %s>%s", cur, e.p, e.c)},
 				ew{e.c, id(e.p), data.Points{{Type: data.PointTypeTombstone, Value: 1 - cur, Time: tick()}}, fmt.Sprintf("tombstone flipped to %v on %s>%s", 1-cur, e.p, e.c)})
 		}
@@ -219,7 +237,7 @@ func keys(m map[string]bool) []string {
 }
 
 func checkC06(r *mc.Report, thorough bool) {
-	rule := "every DAG shape over root + %d nodes (each of the %d candidate edges absent/live%s; chains, mirrors, diamonds, detached nodes, nodes with points but no edge) x every node: node-point batch; every edge: edge-point batch, tombstone re-sent, tombstone flipped; the set of up.* subjects seen by a spy must equal the set computed by graph reachability (node points: live edges; edge points: any edges; up.root.* iff the instance root is reached), payload identical"
+	rule := "every DAG shape over root + %d nodes (each of the %d candidate edges absent/live%s; chains, mirrors, diamonds, detached nodes, nodes with points but no edge) x every node: node-point batch, batches with several samples of one identity (rising / falling times); every edge: edge-point batch, batch with several samples of one identity, tombstone re-sent, tombstone flipped; the set of up.* subjects seen by a spy must equal the set computed by graph reachability (node points: live edges; edge points: any edges; up.root.* iff the instance root is reached), payload identical"
 	r.Explore(mc.Config{Name: "shapes-k3", Rule: fmt.Sprintf(rule, 3, 6, "/tombstoned"), SplitDepth: 4, SelfCheckEvery: 200}, c06Body(3, true))
 	if thorough {
 		r.Explore(mc.Config{Name: "shapes-k4", Rule: fmt.Sprintf(rule, 4, 10, "/tombstoned"), SplitDepth: 5}, c06Body(4, true))
